@@ -9,6 +9,58 @@ HERE = os.path.dirname(os.path.abspath(__file__))
 sys.path.insert(0, os.path.dirname(os.path.dirname(HERE)))
 
 
+def _pre_round(st, fr):
+    """C18 precondition: significand with its top bit set, biased exponent whose subnormal shift is at most 64"""
+    from mlxsa.absint.domain import G
+    p = st.env.get((fr, 1))
+    d = G.ptr.get(p)
+    if d and d[0] == "loc":
+        m = st.env.get(d[1] + (("f", 0),))
+        e = st.env.get(d[1] + (("f", 1),))
+        if m is None:
+            from mlxsa.absint.domain import new_int
+            m = st.env[d[1] + (("f", 0),)] = new_int(1 << 63, (1 << 64) - 1)
+            e = st.env[d[1] + (("f", 1),)] = new_int(-63, 1 << 20)
+        else:
+            st.set_iv(m, 1 << 63, (1 << 64) - 1)
+            st.set_iv(e, -63, 1 << 20)
+
+
+def _pre_moderate(st, fr):
+    """moderate stage entry: non-zero significand (a zero significand is the other literal-zero case), any exponent"""
+    from mlxsa.absint.domain import G
+    a1 = st.env.get((fr, 1))
+    d = G.ptr.get(a1) if isinstance(a1, int) else None
+    if d and d[0] == "loc":            # bellerophon(&Number)
+        m = st.env.get(d[1] + (("f", 1),))
+        if m is None:
+            from mlxsa.absint.domain import new_int
+            st.env[d[1] + (("f", 1),)] = new_int(1, (1 << 64) - 1)
+            st.env[d[1] + (("f", 0),)] = new_int(-(1 << 31), (1 << 31) - 1)
+            st.env[d[1] + (("f", 2),)] = new_int(0, 1)
+        else:
+            st.set_iv(m, 1, (1 << 64) - 1)
+    else:                              # compute_float(q, w)
+        w = st.env.get((fr, 2))
+        if isinstance(w, int):
+            st.set_iv(w, 1, (1 << 64) - 1)
+
+
+def _pre_pos(st, fr):
+    a = st.env.get((fr, 2))
+    if isinstance(a, int):
+        st.set_iv(a, 1, 1)
+
+
+def _pre_neg(st, fr):
+    a = st.env.get((fr, 2))
+    if isinstance(a, int):
+        st.set_iv(a, 0, 0)
+
+
+_PRE = {"round": _pre_round, "moderate": _pre_moderate, "pos": _pre_pos, "neg": _pre_neg}
+
+
 def _run(job):
     """job = dict(config, mode, model, kind='root'|'fn', target, targ=None, frontends=False)"""
     t0 = time.time()
@@ -19,12 +71,28 @@ def _run(job):
         out = []
         if job["kind"] == "root":
             ctxs = [(job["target"], run.analyze_root(f, job["target"], job["model"]))]
+        elif job["kind"] == "frontend":
+            ctxs = [(job["target"], run.analyze_frontend(f, job["target"]))]
+            for name, ctx in ctxs:
+                run.frontend_postconditions(ctx, f, job["target"])
         else:
             insts = [m for m in run.find_insts(f, job["target"], job.get("targ"))
                      if "Filter<" not in m["name"] and "Chain<" not in m["name"]]
             if not insts:
                 return {"job": job, "error": "no instance of %s in the monomorphic program" % job["target"], "wall": time.time() - t0}
-            ctxs = [(m["name"], run.analyze_fn(f, m, job["model"])) for m in insts]
+            ctxs = []
+            for m in insts:
+                ctx = run.analyze_fn(f, m, job["model"], pre=_PRE.get(job.get("pre")), keep_paths=job.get("post") in ("cutoff",))
+                # post-conditions read atoms of the exit states: evaluate them before the next analysis resets the atom tables
+                if job.get("post") == "truncation":
+                    run.truncation_postconditions(ctx, m)
+                if job.get("post") == "round":
+                    run.round_postconditions(ctx, m, f)
+                if job.get("post") == "cutoff":
+                    run.cutoff_postconditions(ctx, m, f)
+                if job.get("post") in ("sat+", "sat-"):
+                    run.saturation_postconditions(ctx, m, job["post"] == "sat+")
+                ctxs.append((m["name"], ctx))
         for name, ctx in ctxs:
             out.append({
                 "entry": name,
